@@ -150,3 +150,49 @@ def is_str(v):
 
 def is_ref(v):
     return Val.is_ref(v)
+
+
+ELT = z3.Function("elt", SEQV, INT, Val)  # elt(s, i) = Nth(s, i): E-matchable alias (seq.nth cannot be a pattern)
+
+
+def elt_definition():
+    s_, i_ = z3.Const("s!elt", SEQV), z3.Int("i!elt")
+    return z3.ForAll([s_, i_], ELT(s_, i_) == s_[i_], patterns=[ELT(s_, i_)])
+
+
+def nth(t, i, depth: int = 0):
+    """t[i] for specifications: the index is pushed through Concat / Unit / Extract so
+    that the ground terms the solver sees are elements of the BASE sequences, and the
+    base access is written elt(s, i) - an uninterpreted alias of Nth(s, i) (definition:
+    elt_definition) on which quantified invariants can be instantiated by E-matching.
+    Equivalent to Nth(t, i) for every i: outside the ranges where the rewriting is
+    valid the un-pushed access is kept."""
+    if depth > 6:
+        return ELT(t, i)
+    if z3.is_app_of(t, z3.Z3_OP_SEQ_CONCAT):
+        ch = t.children()
+        if len(ch) > 2:
+            l, r = z3.Concat(*ch[:-1]), ch[-1]
+        else:
+            l, r = ch
+        ll, lr = z3.Length(l), z3.Length(r)
+        return z3.If(
+            z3.And(0 <= i, i < ll),
+            nth(l, i, depth + 1),
+            z3.If(z3.And(ll <= i, i < ll + lr), nth(r, i - ll, depth + 1), ELT(t, i)),
+        )
+    if z3.is_app_of(t, z3.Z3_OP_SEQ_UNIT):
+        return z3.If(i == 0, t.children()[0], ELT(t, i))
+    if z3.is_app_of(t, z3.Z3_OP_SEQ_EXTRACT):
+        base, off, ln = t.children()
+        return z3.If(
+            z3.And(0 <= i, i < ln, 0 <= off, off + ln <= z3.Length(base)),
+            nth(base, i + off, depth + 1),
+            ELT(t, i),
+        )
+    return ELT(t, i)
+
+
+def elt_link(s, i):
+    """Ground instance of the definition, for a sequence access made by the program."""
+    return ELT(s, i) == s[i]
